@@ -352,6 +352,10 @@ impl Engine for Hist {
     }
 
     fn size(&self, sc: &HistSc) -> usize {
-        sc.ops.len() * 4 + sc.initial.len() * 2 + sc.prios.len() + sc.in_graph as usize
+        sc.ops.len() * 8
+            + sc.initial.len() * 4
+            + sc.prios.len() * 2
+            + sc.in_graph as usize
+            + sc.ops.iter().filter(|o| o.prov() != crate::model::Prov::Own).count()
     }
 }
